@@ -6,6 +6,8 @@ import (
 	"database/sql/driver"
 	"errors"
 	"os"
+	"strconv"
+	"strings"
 	"sync"
 	"syscall"
 
@@ -21,6 +23,7 @@ type dbHook struct {
 	ops      []string       // every driver operation in order ("begin<", "begin>", ...)
 	failNext map[string]int // op -> fail when the counter reaches 1
 	fired    []string
+	code     map[string]int // op -> SQLite primary result code of the next injected failure
 	openTx   int
 	killAt   int // boundary index at which the process kills itself (-1 = never)
 	boundary int
@@ -58,10 +61,32 @@ func dropHook(name string) {
 	hooks.Unlock()
 }
 
+// arm makes the nth next call of the named driver operation fail. "op#N" names the SQLite primary result code the failure carries
+// (every code the library documents is swept at every operation: code that looks at WHICH error it got is driven down each branch).
 func (h *dbHook) arm(op string, nth int) {
 	h.mu.Lock()
+	if i := strings.IndexByte(op, '#'); i > 0 {
+		n, _ := strconv.Atoi(op[i+1:])
+		op = op[:i]
+		if h.code == nil {
+			h.code = map[string]int{}
+		}
+		h.code[op] = n
+	}
 	h.failNext[op] = nth
 	h.mu.Unlock()
+}
+
+// nextErr is the error the failing operation reports: the armed result code, or the rotation.
+func (h *dbHook) nextErr(op string) error {
+	h.mu.Lock()
+	n, ok := h.code[op]
+	delete(h.code, op)
+	h.mu.Unlock()
+	if ok {
+		return codedDriverErr(n)
+	}
+	return nextDriverErr(op)
 }
 
 func (h *dbHook) disarm() []string {
@@ -176,7 +201,7 @@ func (c *verifConn) BeginTx(ctx context.Context, opts driver.TxOptions) (driver.
 	c.h.point("begin", "<")
 	if c.h.shouldFail("begin") {
 		c.h.point("begin", ">")
-		return nil, nextDriverErr("begin")
+		return nil, c.h.nextErr("begin")
 	}
 	tx, err := c.inner.BeginTx(ctx, opts)
 	if err == nil {
@@ -195,7 +220,7 @@ func (c *verifConn) ExecContext(ctx context.Context, q string, args []driver.Nam
 	c.h.point("exec", "<")
 	if c.h.shouldFail("exec") {
 		c.h.point("exec", ">")
-		return nil, nextDriverErr("exec")
+		return nil, c.h.nextErr("exec")
 	}
 	r, err := c.inner.ExecContext(ctx, q, args)
 	c.h.point("exec", ">")
@@ -206,7 +231,7 @@ func (c *verifConn) QueryContext(ctx context.Context, q string, args []driver.Na
 	c.h.point("query", "<")
 	if c.h.shouldFail("query") {
 		c.h.point("query", ">")
-		return nil, nextDriverErr("query")
+		return nil, c.h.nextErr("query")
 	}
 	r, err := c.inner.QueryContext(ctx, q, args)
 	c.h.point("query", ">")
@@ -229,7 +254,7 @@ func (r *verifRows) Next(dest []driver.Value) error {
 	r.h.point("next", "<")
 	if r.h.shouldFail("next") {
 		r.h.point("next", ">")
-		return nextDriverErr("next")
+		return r.h.nextErr("next")
 	}
 	err := r.inner.Next(dest)
 	r.h.point("next", ">")
@@ -250,7 +275,7 @@ func (t *verifTx) Commit() error {
 		t.h.openTx--
 		t.h.mu.Unlock()
 		t.h.point("commit", ">")
-		return nextDriverErr("commit")
+		return t.h.nextErr("commit")
 	}
 	err := t.inner.Commit()
 	t.h.mu.Lock()
@@ -267,7 +292,7 @@ func (t *verifTx) Rollback() error {
 	t.h.openTx--
 	t.h.mu.Unlock()
 	if t.h.shouldFail("rollback") {
-		err = nextDriverErr("rollback") // the rollback happened, an error is reported
+		err = t.h.nextErr("rollback") // the rollback happened, an error is reported
 	}
 	t.h.point("rollback", ">")
 	return err
